@@ -126,6 +126,27 @@ func (x *Exec) stdlib(fr *Frame, ins ssa.Instruction, fn *ssa.Function, args []V
 		x.assume(ts.And(x.w.bvsle(ts.BV(0, 64), n), x.w.bvsle(n, x.w.sLen(buf))))
 		x.assume(ts.Implies(ts.Eq(e, x.w.ifaceNil()), ts.Eq(n, x.w.sLen(buf))))
 		return Tuple{n, e}, true
+	case "strings.Repeat", "bytes.Repeat":
+		// documented to panic if count is negative or the result length overflows
+		var ln *Term
+		a := args[0].(*Term)
+		if a.sort == SStr {
+			ln = x.w.strLen(a)
+		} else {
+			ln = x.w.sLen(a)
+		}
+		cnt := args[1].(*Term)
+		maxInt := ts.BV(uint64(1)<<63-1, 64)
+		okc := ts.And(x.w.bvsle(ts.BV(0, 64), cnt),
+			ts.Or(ts.Eq(ln, ts.BV(0, 64)), x.w.bvsle(cnt, x.bvOp("bvsdiv", maxInt, ln))))
+		x.safety(st, "pre", ins, name+"(count, length)", okc)
+		x.note("trusted: %s panics only for a negative count or an overflowing result length", name)
+		if a.sort == SStr {
+			r := x.w.Fresh("repeated", SStr)
+			x.assume(ts.Eq(x.w.strLen(r), x.bvOp("bvmul", ln, cnt)))
+			return r, true
+		}
+		return x.havocResult(st, "repeated", fn.Signature.Results()), true
 	case "fmt.Errorf", "errors.New":
 		x.note("trusted: %s returns a non-nil error", name)
 		r := x.w.Fresh("err_"+fn.Name(), SIface)
